@@ -69,7 +69,7 @@ RULE = (
     "parameters fixed, start perturbed by <=15% (contour length of force models upwards; for the inextensible "
     "force model additionally bounded below by the largest distance), optional fixing at the generating value and "
     "bounds tightened around / placed at the optimum; fit, refit from the optimum, add further data and fit: the "
-    "generating values must come back within rel 1e-4 (2e-2 when a bound sits AT the optimum). Non-trivial: a fit ran to the end with >=2 datasets, an "
+    "generating values must come back within rel 1e-3 (5e-2 when a bound sits AT the optimum). Non-trivial: a fit ran to the end with >=2 datasets, an "
     "override or a fixed parameter; or an error path was hit; or >=2 datasets with an override were queried."
 )
 TRUSTED = [
@@ -1211,9 +1211,10 @@ def recover_case(rng, slow_ok=False):
             sets.append(S(tgt, "ub", tv))
         sets.append(S(tgt, "value", tv * (1 + pert)))
     acts += sets
-    # measured on 1200 seeded layouts: worst relative error 1e-6 without, 1e-3 with a bound placed AT the optimum (TRF
-    # stays strictly inside the box and stops on its step tolerance before it reaches the bound)
-    tol = 2e-2 if at_optimum else 1e-4
+    # measured on 3 x 800 seeded layouts: worst relative error 8e-6 without, 1e-3 with a bound placed AT the optimum
+    # (TRF stays strictly inside the box and stops on its step tolerance before it reaches the bound); the tolerances
+    # keep a factor >= 50 from that
+    tol = 5e-2 if at_optimum else 1e-3
     acts += [Q, F, dict(Q, check="recovered", tol=tol), F, dict(Q, check="refit-from-optimum", tol=tol)]
     acts += [more, Q, F, dict(Q, check="more-data", tol=tol)]
     return script("recover", specs, acts, truth=truth)
@@ -1297,7 +1298,7 @@ def extra_coverage(results):
                     except Exception:
                         continue
                     recover["checked_queries"] += 1
-                    key = "worst_rel_error_bound_at_optimum" if a.get("tol", 0) > 1e-3 else "worst_rel_error_no_bound_at_optimum"
+                    key = "worst_rel_error_bound_at_optimum" if a.get("tol", 0) > 1e-2 else "worst_rel_error_no_bound_at_optimum"
                     for row in T:
                         if not row[4] and row[0] in c["truth"]:
                             tv = c["truth"][row[0]]
